@@ -28,6 +28,11 @@ BUILDS = {
                test_filter=r"verif_c\d+_clmul_"),
     "miri": dict(features="ipa-verif", default_features=True, miri=True, test_filter=r"verif_c\d+_miri_",
                  shards_override=1),
+    # ThreadSanitizer over the workloads that use real OS threads (std threads, tokio worker threads, the
+    # multi-threaded seq_join); needs nightly + -Zbuild-std so that std itself is instrumented
+    "tsan": dict(features="ipa-verif multi-threading", default_features=True, nightly=True, build_std=True,
+                 target="x86_64-unknown-linux-gnu", rustflags="-Zsanitizer=thread", sanitizer="tsan",
+                 test_filter=r"verif_c\d+_(mt_\w+|\w*threads\w*|\w*native_x1)$"),
 }
 # tests with these markers only exist / only make sense in their own build
 SPECIAL = r"verif_c\d+_(sh|cg|mt|clmul|miri)_"
@@ -44,6 +49,9 @@ def run_env(name, here):
     env = {"IPA_VERIF_DIR": here}
     if b.get("miri"):
         env["MIRIFLAGS"] = "-Zmiri-tree-borrows -Zmiri-disable-isolation -Zmiri-ignore-leaks"
+    if b.get("sanitizer") == "tsan":
+        # keep going after a report and exit normally: reports are collected from the log by the driver
+        env["TSAN_OPTIONS"] = "halt_on_error=0 exitcode=0 report_signal_unsafe=0 second_deadlock_stack=1"
     return env
 
 
@@ -57,9 +65,15 @@ def build(name, repo, here):
         env["RUSTFLAGS"] = b["rustflags"]
     if b.get("miri"):
         cmd = ["cargo", "+nightly", "miri", "test"]
+    elif b.get("nightly"):
+        cmd = ["cargo", "+nightly", "test"]
     else:
         cmd = ["cargo", "test"]
     cmd += ["-p", "ipa-core", "--lib", "--no-run", "--offline", "--message-format=json"]
+    if b.get("build_std"):
+        cmd += ["-Zbuild-std"]
+    if b.get("target"):
+        cmd += ["--target", b["target"]]
     if not b.get("miri"):
         cmd += PROFILE
     if not b.get("default_features", True):
